@@ -648,12 +648,18 @@ def run(ctx):
     r16i(ctx)
     r16j(ctx)
     r16k(ctx)
+    # search positions index the text the accessor returns: it has one definition (own text, then every child's str() and tail) — shared with C05
+    from .c05 import r05d
+    r05d(ctx)
 
 
 from ..selftest import Seed, unparse_seed  # noqa: E402
 
 _EL = "src/odfdo/element.py"
 SEEDS = [
+    Seed("inner_text takes lxml's itertext() when all children are spans", "fault", _EL,
+         '        return self.text + "".join(e._text_tail for e in self.children)',
+         '        if len(self.__element) and all(c.tag.endswith("}span") for c in self.__element):\n            return "".join(self.__element.itertext())\n        return self.text + "".join(e._text_tail for e in self.children)', "R05d"),
     Seed("search_first applies the pattern with MULTILINE", "fault", _EL, "        match = re.search(pattern, self.text_recursive)\n        if match is None:\n            return None\n        return match.start(), match.end()",
          "        match = re.search(pattern, self.text_recursive, re.MULTILINE)\n        if match is None:\n            return None\n        return match.start(), match.end()", "R16d"),
     Seed("Element.text setter filters control characters and the tab", "fault", _EL, "            self.__element.text = text\n", "            self.__element.text = _re_anyspace.sub(\" \", text)\n", "R16k"),
